@@ -69,6 +69,54 @@ def run(ctx):
                 else:
                     ctx.ok('R-ARGORDER', '%s:%s' % (q_, norm(c)[:30]), w_, 'options by keyword or in signature order')
     ctx.floor('calls of getinterpweights', ncall, 3)
+    # ---- R-CONVEDGES: once the source edges have been converted to the requested top, the raw attribute is not used any more
+    ctx.rule('R-CONVEDGES', 'ioapi interpSigma: after the source edges were converted to the requested top (local re-bound), no later statement reads self.VGLVLS again')
+    isf = src.mod('cmaqfiles/_ioapi.py').func('ioapi_base.interpSigma')
+    wis = 'src/PseudoNetCDF/cmaqfiles/_ioapi.py ioapi_base.interpSigma'
+    stmts_ = list(iter_stmts(isf.body))
+    alias = [st for st in stmts_ if isinstance(st, ast.Assign) and isinstance(st.targets[0], ast.Name) and norm(st.value) == 'self.VGLVLS']
+    if not alias:
+        ctx.undec('R-CONVEDGES', 'edges', wis, 'no local bound to self.VGLVLS')
+    else:
+        nm_ = alias[0].targets[0].id
+        rebind = [st for st in stmts_ if isinstance(st, (ast.Assign, ast.AugAssign)) and st is not alias[0] and any(isinstance(t, ast.Name) and t.id == nm_ for t in (st.targets if isinstance(st, ast.Assign) else [st.target]))]
+        late = []
+        if rebind:
+            k0 = stmts_.index(rebind[0])
+            for st in stmts_[k0 + 1:]:
+                if isinstance(st, (ast.If, ast.For, ast.While, ast.Try, ast.With, ast.FunctionDef)):
+                    continue
+                if any(isinstance(x, ast.Attribute) and norm(x) == 'self.VGLVLS' and isinstance(x.ctx, ast.Load) for x in ast.walk(st)):
+                    late.append(st)
+        if late:
+            ctx.violation(Finding('R-CONVEDGES', 'cmaqfiles/_ioapi.py', 'ioapi_base.interpSigma', late[0], '%s reads the raw self.VGLVLS although the edges converted to the requested top are held in %s: with a vgtop '
+                                  'other than the file\'s the weights are computed on edges of the wrong system' % (norm(late[0])[:50], nm_)))
+        else:
+            ctx.ok('R-CONVEDGES', 'edges', wis, 'converted edges held in %s; self.VGLVLS not read afterwards' % nm_)
+    # ---- R-LOGPAIR: log and exp of the log-scale interpolation are applied to the same variables
+    ctx.rule('R-LOGPAIR', 'interpvars: np.ma.exp is applied under the same per-variable test as np.ma.log')
+    ivf = src.mod('core/_functions.py').functions.get('interpvars')
+    if ivf is not None:
+        def guards(call):
+            out = []
+            for p_ in parent_chain(call):
+                if isinstance(p_, (ast.If, ast.IfExp)) and 'loginterp' in norm(p_.test):
+                    out.append(norm(p_.test))
+                if p_ is ivf:
+                    break
+            return sorted(out)
+        logs = [c for c in walk_expr(ivf) if isinstance(c, ast.Call) and (dotted(c.func) or '').split('.')[-1] == 'log']
+        exps = [c for c in walk_expr(ivf) if isinstance(c, ast.Call) and (dotted(c.func) or '').split('.')[-1] == 'exp']
+        wlv = 'src/PseudoNetCDF/core/_functions.py interpvars'
+        if not logs or not exps:
+            ctx.undec('R-LOGPAIR', 'interpvars', wlv, 'log / exp calls not found')
+        else:
+            gl, ge = set(tuple(guards(c)) for c in logs), set(tuple(guards(c)) for c in exps)
+            if gl == ge:
+                ctx.ok('R-LOGPAIR', 'interpvars', wlv, 'both under %s' % sorted(gl))
+            else:
+                ctx.violation(Finding('R-LOGPAIR', 'core/_functions.py', 'interpvars', api.stmt_of(exps[0]), 'the logarithm is taken under %s but the exponential under %s: variables that were interpolated linearly '
+                                      'are exponentiated as well (a constant 2 becomes e**2)' % (sorted(gl), sorted(ge))))
     # ---- R-RESTYPE: interpolated variables keep the type of the source variable
     ctx.rule('R-RESTYPE', 'interpvars creates each result variable with the type of the source variable (no fixed 4-byte type)')
     iv = src.mod('core/_functions.py').functions.get('interpvars')
